@@ -146,6 +146,7 @@ fn c09_scenario(rep: &Reporter, sc: &Scenario, tier: Tier, stats: &C09Stats, sam
             }
         };
         let out = run_go(&mut s, &go_line, plan, &act);
+        rep.sample(|| json!({"position": pos_line, "go": go_line, "cause": format!("{:?}", cause), "interrupted_at_poll": k, "negamax_nodes_at_interruption": count, "bestmove": out.best, "position_before": out.obs.before_fen, "position_after": out.obs.after_fen}));
         if cause != Cause::Quit {
             if let Some(pr) = &out.problem {
                 rep.report(format!("interrupted_search_gives_no_answer:{:?}:{}", cause, short(pr)), case(json!({"problem": pr})));
@@ -493,6 +494,7 @@ struct C07Stats {
 fn c07_judge(rep: &Reporter, root: &Pos, root_tag: &str, pos_line: &str, spec: &GoSpec, clock: &str, out: &SearchOut, late_best: usize, ctx: Value) {
     let legal: Vec<String> = root.legal().iter().map(|m| m.uci()).collect();
     let case = |extra: Value| json!({"kind": "go", "position": pos_line, "go": spec.line, "clock": clock, "context": ctx, "detail": extra});
+    rep.sample(|| json!({"position": pos_line, "go": spec.line, "clock": clock, "context": ctx, "answered_bestmove": out.best, "bestmove_messages": out.n_best + late_best}));
     // signature features that identify the three known classes on the pinned tree
     let feature = || -> String {
         if root_tag.starts_with("fullmove_2") || root_tag.starts_with("fullmove_3") {
@@ -1144,6 +1146,7 @@ pub fn parse_out_line(l: &str) -> Result<OutLine, String> {
 /// judge the lines of one search
 fn c16_judge_search(rep: &Reporter, root: &Pos, lines: &[String], ctx: &Value, n_lines: &AtomicU64) {
     let case = |extra: Value| json!({"kind": "output", "context": ctx, "lines": lines, "detail": extra});
+    rep.sample(|| json!({"context": ctx, "lines": lines}));
     let mut last = InfoLine::default();
     let mut last_pv: Option<Vec<String>> = None;
     let mut best: Option<(String, Option<String>)> = None;
